@@ -361,6 +361,7 @@ func allStartedOrNever(started, finished []bool) bool {
 }
 
 func c19Scenarios(cfg *mc.Config, emit func(mc.Scenario)) {
+	realHandlerScenarios(cfg, emit)
 	b := 2
 	if cfg.Thorough() {
 		b = 3
